@@ -89,6 +89,10 @@ def build(ctx, name, driver, libsrcs, flags=None, wrap=(), extra_srcs=(), cc="gc
     rc, out = sh(cmd, timeout=300)
     if rc != 0:
         raise HarnessError(f"driver build failed: {name}\n{out[-6000:]}")
+    if not hasattr(ctx, "builds"):
+        ctx.builds = {}
+    ctx.builds[str(exe)] = {"name": name, "driver": driver, "libsrcs": list(libsrcs), "flags": list(flags or REL_FLAGS), "wrap": list(wrap),
+                            "extra_srcs": list(extra_srcs), "cc": cc, "defs": list(defs), "libs": list(libs)}
     return exe
 
 
@@ -346,7 +350,22 @@ def violation(ctx, what, detail):
     print(f"  {what}", flush=True)
 
 
-def judge_trace(ctx, tag, trace, res, props, scope, summ=None, died=False, max_report=3):
+def replay_recipe(ctx, exe, scope, rec, trace_module, defs, consts):
+    """How to re-execute exactly this transition: the operations that reach its pre-state (engine `pathof`),
+    the build of the driver, and the trace specification that judges it."""
+    r = {"build": getattr(ctx, "builds", {}).get(str(exe)), "scope": [str(x) for x in scope.get("scope", [])],
+         "trace_module": trace_module, "defs": defs, "consts": consts}
+    try:
+        if scope.get("mode") == "explore" and rec and "sid" in rec:
+            rc, out = sh([str(exe), "pathof", str(rec["sid"]), "--"] + r["scope"], timeout=300)
+            if rc == 0:
+                r["path_ops"] = [l for l in out.splitlines() if l and (l[0].isdigit() or l.startswith("reset"))]
+    except Exception:
+        pass
+    return r
+
+
+def judge_trace(ctx, tag, trace, res, props, scope, summ=None, died=False, max_report=3, recipe=None):
     """Turn validation results into violations (only for the properties this check owns)."""
     reported = 0
     mine = [(p, rid) for (p, rid) in res["l2"] if p in props]
@@ -355,8 +374,10 @@ def judge_trace(ctx, tag, trace, res, props, scope, summ=None, died=False, max_r
             break
         hdr, rec = find_record(trace, rid)
         opdesc = {k: v for k, v in (rec or {}).items() if k not in ("pre", "post")}
+        extra = recipe(rec) if recipe else {}
         violation(ctx, f"{tag}: contract {p} fails on real transition {json.dumps(opdesc)}",
-                  {"signature": f"{tag}:{rec.get('op') if rec else '?'}", "phase": tag, "scope": scope, "header": hdr, "record": rec})
+                  {"signature": f"{tag}:{rec.get('op') if rec else '?'}", "phase": tag, "scope": scope, "header": hdr, "record": rec,
+                   "contract": p, "replay": extra})
         reported += 1
     if died and not mine:
         violation(ctx, f"{tag}: driver died outside a recorded operation (memory corrupted by the library?) rc={summ.get('_rc') if summ else '?'}",
@@ -409,8 +430,9 @@ def impl_phase(ctx, tag, exe, mode_args, scope_args, trace_module, defs, consts,
     if died:
         sanitize_trace(trace)
     res = validate(ctx, tag, trace_module, defs, consts, trace, levels=levels, timeout=timeout)
-    nviol = judge_trace(ctx, tag, trace, res, props, {"mode": mode_args[0], "args": [str(a) for a in mode_args[1:]], "scope": [str(s) for s in scope_args]},
-                        summ=summ, died=died)
+    sc = {"mode": mode_args[0], "args": [str(a) for a in mode_args[1:]], "scope": [str(s) for s in scope_args]}
+    nviol = judge_trace(ctx, tag, trace, res, props, sc, summ=summ, died=died,
+                        recipe=lambda rec: replay_recipe(ctx, exe, sc, rec, trace_module, defs, consts))
     ctx.cov["traces_validated_against_impl"] += res["n"]
     run = {"phase": tag, "mode": mode_args[0], "scope": " ".join(str(s) for s in scope_args),
            "transitions_validated": res["n"], "impl_states": summ.get("impl_states"),
@@ -476,3 +498,45 @@ def gen_replay(ctx, tag, gen_module, defs, consts, depth, num, to_line, exe, sco
     run["tlc_generated_behaviours"] = len(behaviours)
     ctx.log(f"{tag}: {len(behaviours)} behaviours generated by TLC (depth {depth}) replayed into the real code")
     return run
+
+
+def replay_violation(info):
+    """bin/check <id> --replay file: rebuild the driver from /repo's working tree, re-execute the recorded path and
+    the failing operation (engine replay mode fed with the path + the driver's own enumeration is not needed: the
+    failing operation is found again by exploring from the replayed pre-state), and judge the transition again."""
+    rp = info.get("replay") or {}
+    b = rp.get("build")
+    if not b or not rp.get("path_ops"):
+        return None
+    ctx = Ctx(info["property"], "quick", int(info.get("seed", 1)))
+    ctx.work = VERIF / ".work" / f"{info['property']}-replay"
+    if ctx.work.exists():
+        shutil.rmtree(ctx.work)
+    ctx.work.mkdir(parents=True)
+    exe = build(ctx, b["name"], b["driver"], b["libsrcs"], flags=b["flags"], wrap=b["wrap"], extra_srcs=b["extra_srcs"], cc=b["cc"], defs=b["defs"], libs=b["libs"])
+    # the pre-state is reached by the path; the failing record is re-created by exploring only that state:
+    # run `explore` and keep the records whose pre-state equals the recorded one and whose op matches
+    rec = info["record"]
+    trace = ctx.work / "replay-all.ndjson"
+    run_driver(ctx, exe, ["explore", trace, str(int(rec["sid"]) + 1), "--"] + rp["scope"], timeout=600)
+    keep = ctx.work / "replay.ndjson"
+    want = {k: v for k, v in rec.items() if k not in ("id", "pre", "post", "ret", "ev", "out", "it", "tsp", "twp", "tt", "par", "min", "max", "size", "load6")}
+    n = 0
+    with open(trace) as f, open(keep, "w") as g:
+        g.write(f.readline())
+        for line in f:
+            r = json.loads(line)
+            if r.get("sid") == rec["sid"] and all(r.get(k) == v for k, v in want.items()):
+                g.write(line); n += 1
+    if n == 0:
+        print("replay: the recorded operation is no longer offered in that state (the code changed?)")
+        return 2
+    res = validate(ctx, "replay", rp["trace_module"], rp["defs"], rp["consts"], keep, levels=(2,), shards=1)
+    bad = [x for x in res["l2"] if x[0] == info.get("contract", info["property"])]
+    print(f"replay: re-executed {len(rp['path_ops']) - 1} operations to reach the state, then {json.dumps(want)}")
+    if bad:
+        print(f"VIOLATION property={info['property']} replay={info.get('_path', '')}")
+        print("  the contract still fails on this transition")
+        return 1
+    print("replay: the transition satisfies the contract now")
+    return 0
